@@ -147,6 +147,13 @@ func (r *v2run) listener(event string, val int, msg string, metadata interface{}
 		}
 	case b2.ShutdownEvent:
 		r.log.Logf("L", "shutdown")
+		if len(r.ws) > 0 {
+			// a listener that answers the shutdown event with an Enqueue (from a goroutine of its own): the Batcher is
+			// shut down by then, so the call must report that; the driver-side line is not part of the replayed history
+			done := make(chan int, 1)
+			go func() { done <- classify2(r.b.Enqueue(b2.NewOperation(r.ws[0], 0, int64(-7), true))) }()
+			r.log.Logf("D", "shutenq %d", <-done)
+		}
 	case b2.AuditSkipEvent:
 		r.log.Logf("L", "auditskip")
 		r.busy(r.sc.BusyAudit)
